@@ -235,6 +235,8 @@ func (e *Exec) resetPath(it workItem) {
 	e.kfExcluded = false
 	e.blind = false
 	e.globals = map[*ssa.Global]*Value{}
+	e.globalCells = nil // per-path: the cells belong to this path's copy of the package-level variables
+	e.globalInner = nil
 	e.poolItems = map[*Value][]Value{}
 	e.poolOrder = nil
 	e.inPool = map[*Value]string{}
